@@ -185,8 +185,8 @@ func (n *GeneratorInterceptor) loop(rtcpWriter interceptor.RTCPWriter) {
 						if n.nackCountLogs[ssrc][missingSeq] < n.maxNacksPerPacket {
 							filteredMissingPacket[count] = missingSeq
 							count++
+							n.nackCountLogs[ssrc][missingSeq]++
 						}
-						n.nackCountLogs[ssrc][missingSeq]++
 					}
 
 					if count == 0 {
